@@ -55,34 +55,59 @@ func (f *Frame) lookupLocal(name string, st *State, li *loopInfo) (Bound, bool) 
 			}
 		}
 	}
-	// any phi in enclosing loops that is already bound
+	// bindings of the name that are already computed; the closest one dominating the current block wins
 	var cands []ssa.Value
+	var best ssa.Value
+	bestDepth := -1
+	consider := func(v ssa.Value, b *ssa.BasicBlock) {
+		cands = append(cands, v)
+		if f.curBlock == nil || !(b == f.curBlock || b.Dominates(f.curBlock)) {
+			return
+		}
+		d := 0
+		for x := b; x != nil; x = x.Idom() {
+			d++
+		}
+		if d >= bestDepth {
+			bestDepth, best = d, v
+		}
+	}
 	for _, b := range f.fn.Blocks {
 		for _, in := range b.Instrs {
 			switch x := in.(type) {
 			case *ssa.Phi:
 				if x.Comment == name {
 					if _, ok := f.vals[x]; ok {
-						cands = append(cands, x)
+						consider(x, b)
 					}
 				}
 			case *ssa.Alloc:
 				if x.Comment == name {
 					if _, ok := f.vals[x]; ok {
-						cands = append(cands, x)
+						consider(x, b)
 					}
 				}
 			case *ssa.DebugRef:
-				if id, ok := x.Expr.(interface{ String() string }); ok && !x.IsAddr {
-					_ = id
-				}
-				if x.Object() != nil && x.Object().Name() == name {
+				if x.Object() != nil && x.Object().Name() == name && !x.IsAddr {
 					if _, ok := f.vals[x.X]; ok {
-						cands = append(cands, x.X)
+						consider(x.X, b)
 					} else if _, isC := x.X.(*ssa.Const); isC {
-						cands = append(cands, x.X)
+						consider(x.X, b)
 					}
 				}
+			}
+		}
+	}
+	if best != nil {
+		if _, isAlloc := best.(*ssa.Alloc); !isAlloc {
+			hasAlloc := false
+			for _, c := range cands {
+				if _, ok := c.(*ssa.Alloc); ok {
+					hasAlloc = true
+				}
+			}
+			if !hasAlloc {
+				return Bound{V: f.val(best), T: best.Type()}, true
 			}
 		}
 	}
@@ -162,6 +187,8 @@ func (e *Env) sortOfTypeName(name string) (string, types.Type, error) {
 		return "Real", types.Typ[types.Float64], nil
 	case "slice":
 		return "Slice", nil, nil
+	case "intarray":
+		return "(Array Int Int)", types.NewArray(types.Typ[types.Int], 1<<40), nil
 	case "iface", "any", "error":
 		return "Iface", e.p.lookupType(e.pkg, "error"), nil
 	}
@@ -243,8 +270,13 @@ func (e *Env) eval(x *Expr) (Bound, error) {
 			n.vars[v.Name] = Bound{V: Val{qn, s}, T: t}
 			if t != nil {
 				if g := vc.rangeFact(t, qn); g != "true" {
-					if _, isBasic := t.Underlying().(*types.Basic); isBasic {
-						guards = append(guards, g)
+					if bt, isBasic := t.Underlying().(*types.Basic); isBasic {
+						switch bt.Kind() {
+						case types.Int, types.Int64:
+							// quantified ints are mathematical integers (no range guard)
+						default:
+							guards = append(guards, g)
+						}
 					}
 				}
 			}
@@ -277,10 +309,16 @@ func (e *Env) evalIdent(name string) (Bound, error) {
 		if len(e.results) == 1 {
 			return e.results[0], nil
 		}
-		if len(e.results) == 0 {
-			return Bound{}, fmt.Errorf("no result here")
+		if len(e.results) > 1 {
+			return Bound{Tuple: e.results}, nil
 		}
-		return Bound{Tuple: e.results}, nil
+		// no function result in scope: a local variable called "result"
+		if e.lookup != nil {
+			if b, ok := e.lookup(name); ok {
+				return b, nil
+			}
+		}
+		return Bound{}, fmt.Errorf("no result here")
 	}
 	if e.lookup != nil {
 		if b, ok := e.lookup(name); ok {
@@ -399,7 +437,7 @@ func (e *Env) evalIndex(x *Expr) (Bound, error) {
 	switch t := base.T.Underlying().(type) {
 	case *types.Slice:
 		comp := vc.regMem(t.Elem())
-		return Bound{V: Val{sel(sel(vc.get(e.state, comp), "(s-ref "+base.V.T+")"), "(+ (s-off "+base.V.T+") "+idx.V.T+")"), vc.sortOf(t.Elem())}, T: t.Elem()}, nil
+		return Bound{V: Val{sel(sel(vc.get(e.state, comp), "(s-ref "+base.V.T+")"), "(sidx (s-off "+base.V.T+") "+idx.V.T+")"), vc.sortOf(t.Elem())}, T: t.Elem()}, nil
 	case *types.Map:
 		has, val := vc.regMap(t)
 		present := and(not(eq(base.V.T, "0")), sel(sel(vc.get(e.state, has), base.V.T), idx.V.T))
@@ -785,6 +823,43 @@ func (e *Env) evalCall(x *Expr) (Bound, error) {
 		_, sv := vc.regChan(a.T)
 		ct := a.T.Underlying().(*types.Chan)
 		return Bound{V: Val{sel(sel(vc.get(e.state, sv), a.V.T), i.V.T), vc.sortOf(ct.Elem())}, T: ct.Elem()}, nil
+	case "ownsends":
+		vc.regComp("Own_SendCnt", "Int")
+		return Bound{V: Val{vc.get(e.state, "Own_SendCnt"), "Int"}, T: intT}, nil
+	case "ownsendchan":
+		i, err := e.eval(x.Args[0])
+		if err != nil {
+			return Bound{}, err
+		}
+		vc.regComp("Own_SendChan", "(Array Int Int)")
+		return Bound{V: Val{sel(vc.get(e.state, "Own_SendChan"), i.V.T), "Int"}, T: intT}, nil
+	case "ownsendval":
+		ch, err := e.eval(x.Args[0])
+		if err != nil {
+			return Bound{}, err
+		}
+		i, err := e.eval(x.Args[1])
+		if err != nil {
+			return Bound{}, err
+		}
+		ct, ok := ch.T.Underlying().(*types.Chan)
+		if !ok {
+			return Bound{}, fmt.Errorf("ownsendval needs a channel")
+		}
+		comp := ownSendValComp(ch.T)
+		vc.regComp(comp, "(Array Int "+vc.sortOf(ct.Elem())+")")
+		return Bound{V: Val{sel(vc.get(e.state, comp), i.V.T), vc.sortOf(ct.Elem())}, T: ct.Elem()}, nil
+	case "block":
+		a, err := e.eval(x.Args[0])
+		if err != nil {
+			return Bound{}, err
+		}
+		st, ok := a.T.Underlying().(*types.Slice)
+		if !ok {
+			return Bound{}, fmt.Errorf("block() of non-slice")
+		}
+		comp := vc.regMem(st.Elem())
+		return Bound{V: Val{sel(vc.get(e.state, comp), "(s-ref "+a.V.T+")"), "(Array Int " + vc.sortOf(st.Elem()) + ")"}, T: types.NewArray(st.Elem(), 1<<40)}, nil
 	case "fresh":
 		a, err := e.eval(x.Args[0])
 		if err != nil {
@@ -885,6 +960,9 @@ func (e *Env) evalCall(x *Expr) (Bound, error) {
 		}
 		vc.declareFun(x.Args[0].Name, sorts, rs)
 		return Bound{V: Val{app(x.Args[0].Name, as...), rs}, T: rt}, nil
+	}
+	if fn, ok := extCalls[x.Name]; ok {
+		return fn(e, x)
 	}
 	// library pure functions
 	if lm, ok := libPure[x.Name]; ok {
